@@ -18,6 +18,11 @@ RULE = ("trees: a small exhaustive family (all leaves with name/value of length 
         "line_num). documents: fixed corpus + generated flag documents + random lexeme sequences + character mutations "
         "of serialised trees, under random parse options (flags mapping, newline_keys, newline_values, allow_escapes, "
         "single_line, single_block); result tree or (error id, argument, line) compared with the model. "
+        "sessions: sequences of 2-7 API calls in one interpreter state (single_block parses that return early with a token "
+        "pushed back, parses abandoned by an error, direct Tokenizer call/peek/push_back use, serialise, round trips; str / "
+        "chunk list / file object), state renewed (all srctools modules re-imported) every 100 sessions; every call's result "
+        "compared with the model (a pure function of the call) and every round trip checked; a failing round trip is "
+        "re-run from a pristine state and the call sequence shrunk (ddmin). "
         "A case is non-trivial when it contains a character special to the format (quote, backslash, brace, bracket, "
         "CR, LF) or ends in an error; distinct by content.")
 TRUSTED = ["model: C01.serKV / C01.step / C01.parseToks (lean/Srctools/Model/C01.lean) on top of the shared tokenizer model "
@@ -367,6 +372,271 @@ def correspond(ctx, drivers):
         if len(reqs) >= 20000:
             _flush(ctx, drv, reqs, meta)
     _flush(ctx, drv, reqs, meta)
+    # ---- sessions (histories of calls in one interpreter state)
+    run_sessions(ctx, drv)
+
+
+# ----------------------------------------------------------------------------- sessions
+# A session is a sequence of API calls made in ONE interpreter state (a history), e.g. a
+# `single_block=True` parse that returns early with a token pushed back, a parse abandoned by an error,
+# direct Tokenizer use with peek/push_back, serialise calls, and round trips of generated trees.  The
+# model is a pure function of each call's arguments, so every call's result must equal the model's
+# (history independence = the tie), and a wrong round trip is a property violation whose witness is the
+# whole call sequence.
+
+SB_DOCS = ['"k" "v"', '"k" "v" }', '"k" "v"\n', '"k" "v" {', '"k" "v" [win32]\n', '"k" "v" "x" "y"', '"k" "v" =',
+           '"a" { "b" "c" } "tail" "z"', '"a"\n{\n}\n"more"', '"a" "b" #dir', 'k v', '"k" "v" // c', '"k" "v"\r\n}',
+           '"a" { "b" "c" } }', '"a" [x360]\n{\n}\n"b" "c"\n']
+TOK_OPS = ['call', 'call', 'call', 'peek', 'push']
+
+
+def fresh_impl():
+    """A pristine implementation state: every srctools module is imported anew."""
+    import common
+    common.import_impl()
+    return Impl()
+
+
+def _cut(text, cuts):
+    """Deterministic chunk list from cut positions (taken modulo len+1); an empty chunk after odd cuts."""
+    pos = sorted(set(c % (len(text) + 1) for c in cuts))
+    out, last = [], 0
+    for c in pos + [len(text)]:
+        out.append(text[last:c])
+        if c % 2:
+            out.append('')
+        last = c
+    return out
+
+
+def _source(text, src, cuts):
+    if src == 'chunks':
+        return _cut(text, cuts)
+    if src == 'file':
+        return io.StringIO(text)
+    return text
+
+
+def gen_session(rng, impl):
+    calls = []
+    for _ in range(rng.randrange(1, 7)):
+        r = rng.random()
+        src, cuts = rng.choice(['str', 'chunks', 'file']), [rng.randrange(0, 200) for _ in range(rng.randrange(0, 5))]
+        if r < 0.3:
+            d = rng.choice(SB_DOCS) if rng.random() < 0.7 else G.flag_doc(rng, impl.escape_text)
+            calls.append({'op': 'parse', 'doc': d, 'po': dict(DEFAULT_PO, sb=True, sl=rng.random() < 0.2), 'src': src, 'cuts': cuts})
+        elif r < 0.5:
+            d = rng.choice(G.FIXED_DOCS) if rng.random() < 0.5 else G.mutate(rng, G.flag_doc(rng, impl.escape_text))
+            calls.append({'op': 'parse', 'doc': d, 'po': rand_po(rng), 'src': src, 'cuts': cuts})
+        elif r < 0.65:
+            d = rng.choice(SB_DOCS + G.FIXED_DOCS) if rng.random() < 0.7 else G.lexeme_doc(rng, 8)
+            calls.append({'op': 'tok', 'text': d, 'ops': [rng.choice(TOK_OPS) for _ in range(rng.randrange(1, 7))]})
+        elif r < 0.75:
+            roots, is_root, o, _ = gen_case(rng)
+            calls.append({'op': 'ser', 'roots': [G.enc(t) for t in roots], 'is_root': is_root, 'o': o})
+        else:
+            roots, is_root, o, _ = gen_case(rng)
+            calls.append({'op': 'roundtrip', 'roots': [G.enc(t) for t in roots], 'is_root': is_root, 'o': o, 'src': src, 'cuts': cuts})
+    roots, is_root, o, _ = gen_case(rng)
+    calls.append({'op': 'roundtrip', 'roots': [G.enc(t) for t in roots], 'is_root': is_root, 'o': o,
+                  'src': rng.choice(['str', 'chunks', 'file']), 'cuts': [rng.randrange(0, 200) for _ in range(3)]})
+    return calls
+
+
+def _tok_ops_impl(impl, text, ops):
+    tok = impl.Tokenizer(text, None, string_bracket=True)
+    out, last = [], None
+    for op in ops:
+        try:
+            if op == 'call':
+                k, v = tok()
+                last = (k, v)
+                out.append(['call', k.value, codes(v)])
+            elif op == 'peek':
+                k, v = tok.peek()
+                last = (k, v)
+                out.append(['peek', k.value, codes(v)])
+            elif last is not None:
+                tok.push_back(*last)
+                out.append(['push'])
+        except impl.TSE as e:
+            out.append(['err'] + tokutil.err_code(e)[:2])
+            break
+        except Exception as e:
+            out.append(['exc', f'{type(e).__name__}: {e}'])
+            break
+    return out
+
+
+def _tok_ops_model(run, ops):
+    """The same observation predicted from the model's token stream of the text (pure)."""
+    toks, err = run['toks'], run['err']
+    i, stack, out, last = 0, [], [], None
+
+    def fetch():
+        nonlocal i
+        if stack:
+            return stack.pop()
+        if i < len(toks):
+            t = toks[i]
+            if t[0] != 0:
+                i += 1
+            return [t[0], t[1]]
+        if err:
+            raise LookupError
+        return [0, []]
+    for op in ops:
+        try:
+            if op == 'call':
+                last = fetch()
+                out.append(['call'] + last)
+            elif op == 'peek':
+                last = fetch()
+                stack.append(last)
+                out.append(['peek'] + last)
+            elif last is not None:
+                stack.append(last)
+                out.append(['push'])
+        except LookupError:
+            out.append(['err'] + err[:2])
+            break
+    return out
+
+
+def _call_tree(impl, c):
+    roots = [G.dec(t) for t in c['roots']]
+    with warnings.catch_warnings():
+        warnings.simplefilter('ignore')
+        obj = impl.K.root(*[G.build(impl.K, t) for t in roots]) if c['is_root'] else G.build(impl.K, roots[0])
+    return roots, obj
+
+
+def run_call(impl, c):
+    """One call on the implementation -> JSON-able result."""
+    try:
+        if c['op'] == 'parse':
+            r = impl.parse(_source(c['doc'], c['src'], c['cuts']), c['po'])
+            r.pop('lines', None)
+            return r
+        if c['op'] == 'tok':
+            return {'obs': _tok_ops_impl(impl, c['text'], c['ops'])}
+        roots, obj = _call_tree(impl, c)
+        text = obj.serialise(**ser_kwargs(c['o']))
+        if c['op'] == 'ser':
+            return {'text': text}
+        names_ok = not any(ch in n for t in roots for n in G.tree_names(t) for ch in '\r\n')
+        got = impl.parse(_source(text, c['src'], c['cuts']), dict(DEFAULT_PO, nk=not names_ok))
+        got.pop('lines', None)
+        return {'text': text, 'got': got, 'ok': got == {'k': 'root', 'trees': roots}}
+    except Exception as e:      # nothing here is expected to raise
+        return {'k': 'exc', 'exc': f'{type(e).__name__}: {e}', 'ok': False}
+
+
+def run_session(impl, calls):
+    return [run_call(impl, c) for c in calls]
+
+
+def _session_fails(calls):
+    """Does the LAST call (a round trip) fail when the calls are made from a pristine state?"""
+    res = run_session(fresh_impl(), calls)
+    return res[-1].get('ok') is False
+
+
+def _model_reqs(impl, c):
+    if c['op'] == 'parse':
+        return [dict(model_po(impl, c['po'], c['doc']), op='parse', s=codes(c['doc']))]
+    if c['op'] == 'tok':
+        return [{'op': 'toks', 's': codes(c['text']), 'esc': True, 'fold': tokutil.fold_table(c['text'])}]
+    return [{'op': 'ser', 'root': c['is_root'], 'trees': c['roots'], 'indent': codes(c['o']['indent']),
+             'braces': c['o']['braces'], 'start': codes(c['o']['start'])}]
+
+
+def _model_expect(c, replies):
+    m = replies[0]
+    if c['op'] == 'parse':
+        v = model_view(m)
+        v.pop('lines', None)
+        return v
+    if c['op'] == 'tok':
+        return {'obs': _tok_ops_model(m, c['ops'])}
+    text = uncodes(m['r']) if 'r' in m else None
+    if c['op'] == 'ser':
+        return {'text': text}
+    return {'text': text, 'got': {'k': 'root', 'trees': [G.dec(t) for t in c['roots']]}, 'ok': True}
+
+
+def run_sessions(ctx, drv):
+    """Sessions on the implementation; every call compared with the model (pure function of the call);
+    a failing round trip -> witness = the call sequence, confirmed from a pristine state and shrunk."""
+    rng = ctx.rng
+    n = ctx.budget(1500, 15000)
+    EPOCH = 100
+    impl = None
+    epoch_calls, reqs, meta, shrunk = [], [], [], False
+    for si in range(n):
+        if si % EPOCH == 0:
+            impl, epoch_calls = fresh_impl(), []
+        calls = gen_session(rng, impl)
+        res = run_session(impl, calls)
+        ctx.count('session')
+        ctx.count('session:calls', len(calls))
+        for c in calls:
+            ctx.count('session:op:' + c['op'] + (':single_block' if c['op'] == 'parse' and c['po']['sb'] else ''))
+        ctx.case({'session': calls}, nontrivial=len(calls) > 1, sample_every=499)
+        for i, (c, r) in enumerate(zip(calls, res)):
+            if drv is not None:
+                rq = _model_reqs(impl, c)
+                reqs += rq
+                meta.append((calls, i, r, len(rq)))
+            if c['op'] == 'roundtrip' and r.get('ok') is False:
+                hist = calls[:i + 1]
+                note = ''
+                if len(ctx.witnesses) < 5:
+                    if _session_fails(hist):
+                        pass
+                    elif _session_fails(epoch_calls + hist):
+                        hist = epoch_calls + hist
+                    else:
+                        note = ' (not reproduced from a pristine state: depends on more history than this run kept)'
+                    if not note and not shrunk:
+                        shrunk = True
+                        last = hist[-1]
+                        pre = common_ddmin(hist[:-1], lambda cs: _session_fails(list(cs) + [last])) if len(hist) > 1 else []
+                        hist = list(pre) + [last]
+                    impl = fresh_impl()         # the confirmation runs replaced the interpreter state
+                    epoch_calls = []
+                ctx.witness('session-history' if len(hist) > 1 else _wit_key([G.dec(t) for t in c['roots']]),
+                            f'parse(serialise(tree)) is wrong after a history of {len(hist) - 1} API call(s) in the same '
+                            f'process: {json.dumps(hist[:-1], default=str)[:400]} then round trip of '
+                            f'{[G.dec(t) for t in c["roots"]]!r:.200} -> {json.dumps(r.get("got", r), default=str)[:200]}{note}',
+                            {'session': hist})
+        epoch_calls += calls
+        if len(reqs) >= 20000:
+            _flush_sessions(ctx, drv, reqs, meta)
+    _flush_sessions(ctx, drv, reqs, meta)
+    ctx.extra['sessions_done'] = True
+
+
+def common_ddmin(items, fails):
+    from common import ddmin
+    return ddmin(items, fails, budget=120)
+
+
+def _flush_sessions(ctx, drv, reqs, meta):
+    if drv is None or not reqs:
+        del reqs[:], meta[:]
+        return
+    replies = drv.batch(reqs)
+    k = 0
+    for calls, i, r, nreq in meta:
+        want = _model_expect(calls[i], replies[k:k + nreq])
+        k += nreq
+        ctx.traces_vs_impl += 1
+        got = {key: r.get(key) for key in want} if 'exc' not in r else r
+        if got != want:
+            ctx.disagree({'session': calls[:i + 1], 'index': i}, got, want,
+                         'call %d (%s) of a session differs from the model (a pure function of the call): history dependence' % (i, calls[i]['op']))
+    del reqs[:], meta[:]
 
 
 # ----------------------------------------------------------------------------- shrinking
@@ -440,7 +710,9 @@ def search(ctx):
                 property_on_impl(ctx, impl, [t], False, o, rand_opts(rng), rng)
                 for r in list(_reductions(t))[:40]:
                     property_on_impl(ctx, impl, [r], False, o, rand_opts(rng), rng)
-    if ctx.witnesses:
+    if not ctx.extra.get('sessions_done'):
+        run_sessions(ctx, None)
+    if ctx.witnesses and 'roots' in ctx.witnesses[0]['input']:
         w = ctx.witnesses[0]
         inp = w['input']
         roots = [G.dec(t) for t in inp['roots']]
@@ -463,6 +735,16 @@ def search(ctx):
 def replay(ctx, payload):
     impl = Impl()
     inp = payload.get('input') or {}
+    if 'session' in inp:
+        calls = inp['session']
+        res = run_session(fresh_impl(), calls)
+        ok = True
+        for i, (c, r) in enumerate(zip(calls, res)):
+            print(f'call {i}:', json.dumps(c, default=str)[:300], '->', json.dumps(r, default=str)[:300])
+            if c['op'] == 'roundtrip' and r.get('ok') is False:
+                print('  FAILS: parse(serialise(tree)) is not the tree after the calls above')
+                ok = False
+        return ok
     if 'roots' not in inp:
         print('replay file names a broken obligation/correspondence, no failing input to replay:',
               payload.get('broken_obligations'), json.dumps(payload.get('disagreements', [])[:1], default=str)[:600])
@@ -478,6 +760,8 @@ def replay(ctx, payload):
 def replay_known(ctx, finding):
     impl = Impl()
     wit = finding.get('witness') or {}
+    if 'session' in wit:
+        return run_session(fresh_impl(), wit['session'])[-1].get('ok') is False
     if 'roots' not in wit:
         return None
     roots = [G.dec(t) for t in wit['roots']]
@@ -492,7 +776,8 @@ LEVEL_TEXT = ("Theorems in Lean about the executable model of Keyvalues._seriali
               "indent_braces, any flags / single_line, names without CR/LF or newline_keys), C01_roundtrip_root (any number of "
               "top-level keyvalues), C01_roundtrip_single_block, C01_tokens / C01_tokens_root (the token stream of the "
               "serialised text - kinds, values, line numbers - is a function of the tree alone), C01_ws_indep, and "
-              "C01_parse_no_internal (the parser machine never reaches a model-only state: invariant proof), "
+              "C01_history_indep / C01_roundtrip_any_history (sessions in the model are evaluated call by call; for the code history "
+              "independence is established by the session correspondence), C01_parse_no_internal (the parser machine never reaches a model-only state: invariant proof), "
               "C01_block_names_escaped_needed / C01_unescaped_not_roundtrip / C01_unescaped_alters_name (the writer that "
               "leaves block names raw - the defect fixed in /repo - is not invertible). C01_gen_cfg / C01_gen_shape / "
               "C01_gen_tables tie the writer (which fields are escaped, the text templates; also whether parse guards its flag-replace test) and the tables to keyvalues.py / "
